@@ -693,7 +693,7 @@ Definition run_case (c : sx) : sx :=
           match f args with
           | Sy "badcase" =>
               match args with
-              | Sy b :: rest => if String.eqb b "vec" || String.eqb b "adv" then f rest else bad
+              | Sy b :: rest => if String.eqb b "vec" || String.eqb b "adv" || String.eqb b "adv2" then f rest else bad
               | _ => bad
               end
           | r => r
